@@ -154,6 +154,11 @@ def r1_step_shape(repo: Repo, rep):
                 return RF.atom(dump(node))
             return None
 
+        if isinstance(p.ret, ast.Constant) and p.ret.value is None:
+            gs = [("" if pol else "not ") + dump(g)[:60] for g, pol, k in p.guards if k == "if"]
+            rep.violation(R, fi.site(p.ret_node), fi.fq, "every path hands the summed loss to the optimizer (Lightning skips backward and the step for a returned None)",
+                          f"returns None when {gs[-1:] or ['always']}", f"returns None under {gs[-1:]}")
+            continue
         cut = [dump(n) for n in ast.walk(p.ret) if (isinstance(n, ast.Attribute) and n.attr in ("detach", "item", "data", "detach_"))
                or (isinstance(n, ast.Call) and attr_chain(n.func) in ("float", "int"))]
         if cut:
